@@ -2,4 +2,4 @@
 From MDW Require Import AbiAll.
 Require Extraction.
 Require Import ExtrOcamlBasic.
-Extraction "../ocaml/gen/model.ml" entry_c16 entry_c13 entry_c13_judge entry_c09 entry_c10_consistent entry_c12 entry_c20 entry_c20_included entry_c06 entry_c06_shorten entry_c14 entry_c14_soname entry_c14p entry_c14p_soname entry_const entry_ctx_ptrace entry_ctx_ucontext entry_c15 entry_tl_listed entry_tl_region entry_tl_memlist entry_tl_exception entry_c11_tree entry_c03_final entry_c17 entry_c18_dso entry_c18_dso_auxv entry_c18_meminfo entry_c18_meminfo_spec entry_c18_cpu entry_c08 entry_sov entry_c01_sound entry_image.
+Extraction "../ocaml/gen/model.ml" entry_c16 entry_c13 entry_c13_judge entry_c09 entry_c10_consistent entry_c12 entry_c20 entry_c20_included entry_c06 entry_c06_shorten entry_c14 entry_c14_soname entry_c14p entry_c14p_soname entry_const entry_ctx_ptrace entry_ctx_ucontext entry_ctx_ptrace_spec entry_ctx_ucontext_spec entry_c15 entry_tl_listed entry_tl_region entry_tl_memlist entry_tl_exception entry_c11_tree entry_c03_final entry_c17 entry_c18_dso entry_c18_dso_auxv entry_c18_meminfo entry_c18_meminfo_spec entry_c18_cpu entry_c08 entry_sov entry_c01_sound entry_image.
